@@ -13,6 +13,7 @@ structure SQObs where
   dumped : Nat := 0
   init : Bool := false
   closed : Bool := false
+  worker : String := "connecting"
 deriving Inhabited
 
 structure SQEng where
@@ -62,7 +63,7 @@ def sqSpec (q : Nat) (prev : SQObs) (n : Nat) (line : String) : List String × S
     | [_, s] => s.toNat?.getD 0
     | _ => 0
   let cur : SQObs := { queue := queue, recvSpans := recvSpans, dumped := (g "dumped").toNat?.getD 0,
-                       init := g "init" == "1", closed := g "closed" == "1" }
+                       init := g "init" == "1", closed := g "closed" == "1", worker := g "worker" }
   let rem := (g "rem").toNat?.getD 0
   let w := g "worker"
   let fails :=
@@ -75,6 +76,11 @@ def sqSpec (q : Nat) (prev : SQObs) (n : Nat) (line : String) : List String × S
       | some l => if sum l > q then ["C16 span queue: the spans waiting in the queue exceed the queue size"] else []
       | none => []) ++
     (if g "late" == "1" then ["C16 span queue: Shutdown did not return within its time-out"] else []) ++
+    -- back-pressure only when there is pressure: with the queue empty and the worker idle in its select (nothing in flight, every
+    -- credit due), a batch that fits into the queue is accepted
+    (if n > 0 && n ≤ q && q > 0 && prev.queue == some [] && prev.worker == "ready" && !prev.init && !prev.closed &&
+        cur.dumped > prev.dumped then
+      [s!"C16 span queue: a batch of {n} spans was dropped although the queue (size {q}) was empty and the sender idle - the capacity counter has leaked"] else []) ++
     (match prev.queue, queue with
       | some qp, some qc =>
         if g "blocked" == "1" || g "prod" == "panic" then [] else
